@@ -521,7 +521,8 @@ def gen_string(rs, names: List[str]) -> str:
         # absolute values whose contents cancel or are constant, alone or facing another absolute value across the relation
         a_, b_ = rs.choice(names), rs.choice(names)
         return rs.choice(["|{a} - {a}| <= 3 - |{b}|", "|{a} - {a}| <= {n}", "|0| + {b} <= {n}", "|{b}| <= |{a} - {a}| + {n}", "|2{a} - 2*{a}| + |{b}| <= {n}",
-                          "|{a}| + |{a} - {a}| <= {n}", "{n}|{a} - {a}| >= {b}", "|1 - 1| <= {b}"]).format(a=a_, b=b_, n=rs.choice(["1", "2", "4"]))
+                          "|{a}| + |{a} - {a}| <= {n}", "{n}|{a} - {a}| >= {b}", "|1 - 1| <= {b}", "|{a} - {a}| <= {n} - |{b} - {b}|",
+                          "|0| <= {n} - |{a} - {a}|", "|{a} - {a}| + |{b} - {b}| <= {n}", "{n} - |{b} - {b}| >= |{a} - {a}|"]).format(a=a_, b=b_, n=rs.choice(["1", "2", "4"]))
     if kind == "abs_both":
         # the same absolute-value term on both sides of the relation (it is combined into one when the sides are subtracted)
         inner = rs.choice(names) if rs.random() < 0.6 else "%s %s %s" % (rs.choice(names), rs.choice(["-", "+"]), rs.choice(names))
@@ -916,7 +917,10 @@ def gen_step(rs, view: View, allowed_ops: List[str], weights: Optional[Dict[str,
         A["var"] = _lit(rs.choice(vs))
     elif name == "tl_optimize":
         vs = view.tl_vars(view.pool[li]) or NAMES
-        obj = {Var(nm): float(rs.choice([1, -1, 2, 0.5])) for nm in rs.sample(vs, min(len(vs), rs.choice([1, 2])))}
+        obj = {Var(nm): float(rs.choice([1, -1, 2, 0.5, 0.0])) for nm in rs.sample(vs, min(len(vs), rs.choice([1, 2])))}
+        if rs.random() < 0.25:
+            # a variable the constraints do not mention, possibly with weight exactly zero
+            obj[Var(rs.choice([n_ for n_ in NAMES + EXTRA_NAMES if n_ not in vs] or NAMES))] = float(rs.choice([0.0, 0.0, 1.0, -2.0]))
         A["self"] = {"slot": li}
         A["objective"] = _lit(obj)
         A["maximize"] = _lit(rs.random() < 0.5)
